@@ -78,7 +78,7 @@ REALTIME = {"srv", "conc", "cli", "bin"}
 PROPS = {
     "C01": {"suites": ["wsend"], "monitor": True, "title": "download fidelity", "assumptions": W_ASSUME},
     "C02": {"suites": ["wrecv", "srv"], "monitor": True, "title": "upload fidelity", "assumptions": W_ASSUME},
-    "C03": {"suites": ["srv"], "monitor": True, "title": "directory confinement",
+    "C03": {"suites": ["srv", "bin"], "monitor": True, "title": "directory confinement",
             "assumptions": ["no symbolic links inside the served directories; Unix path branch", "loopback UDP delivers the sequential request histories"]},
     "C04": {"suites": ["pair", "wrecv", "wsend"], "monitor": True, "title": "loss tolerance",
             "assumptions": W_ASSUME + ["time-outs are delivered at quiescence only (sender first): one fair schedule of the two timers"]},
